@@ -130,6 +130,52 @@ def check_reencoding(db, chk, RULE):
 
 
 
+def check_rank_association(db, chk, rule: str) -> None:
+    """shared by C01 (a rank's frame is the image of THAT rank's file) and C11 (schedule independence)"""
+    tm = db.mod(TM)
+    f = tm.func("Trace.parse_multiple_ranks")
+    where = tm.loc(f)
+    pool_vars = {H.name_id(it.optional_vars) for w in ast.walk(f) if isinstance(w, ast.With) for it in w.items if "Pool(" in ast.unparse(it.context_expr) and it.optional_vars is not None}
+    pool_vars |= {H.name_id(t) for t, v, s_ in H.assignments(f) if "Pool(" in ast.unparse(v)}
+    pool_calls = [c for c in ast.walk(f) if isinstance(c, ast.Call) and isinstance(c.func, ast.Attribute) and isinstance(c.func.value, ast.Name) and c.func.value.id in pool_vars
+                  and c.func.attr not in ("close", "join", "terminate")]
+    prims = sorted({c.func.attr for c in pool_calls})
+    chk.ob(rule, "worker results are collected with an order-preserving primitive only", prims == ["map"], where, found=prims, accepted=["map"],
+           why="imap_unordered / apply_async deliver in completion order: zip(ranks, results) would store one rank's frame, metadata and local table under another rank")
+    pm = [c for c in pool_calls if c.func.attr == "map"]
+    zips = [c for c in ast.walk(f) if isinstance(c, ast.Call) and H.name_id(c.func) == "zip"]
+    ok, tp, res_def = False, [], []
+    if len(pm) == 1 and len(pm[0].args) >= 2 and isinstance(pm[0].args[1], ast.Name):
+        paths_var = pm[0].args[1].id
+        tp = [v for t, v, s_ in H.assignments(f) if H.name_id(t) == paths_var]
+        res_vars = [H.name_id(t) for t, v, s_ in H.assignments(f) if v is pm[0]]
+        res_def = [ast.unparse(v) for t, v, s_ in H.assignments(f) if H.name_id(t) in res_vars]
+        ok = len(tp) == 1 and H.match("[self.trace_files[$r] for $r in ranks]", tp[0]) is not None and len(res_vars) == 1 and \
+            any([H.name_id(a) for a in z.args] == ["ranks", res_vars[0]] for z in zips)
+        tp = [ast.unparse(x) for x in tp]
+    chk.ob(rule, "results are paired with the rank list the inputs were built from, in the same order", ok and len(res_def) == 1, where, found={"trace_paths": tp, "results": res_def, "zip": [ast.unparse(z) for z in zips]},
+           accepted="trace_paths = [self.trace_files[rank] for rank in ranks]; results = pool.map(_parser, trace_paths, ...); zip(ranks, results)")
+    # sequential branch and parse_single_rank: file parsed = trace_files[<the rank the result is stored under>]
+    for q in ("Trace.parse_multiple_ranks", "Trace.parse_single_rank"):
+        g = tm.func(q)
+        for c in [c for c in ast.walk(g) if isinstance(c, ast.Call) and H.name_id(c.func) == "parse_trace_file"]:
+            tgts = [t for t, v, s_ in H.assignments(g) if v is c]
+            if not tgts:
+                continue          # the memory-profiling probe parses a file without keeping the result
+            arg = c.args[0] if c.args else None
+            mk = H.match("self.trace_files[$r]", H.expand(g, arg)) if arg is not None else None
+            is_store = lambda t: isinstance(t, ast.Subscript) and ast.unparse(t.value) in ("self.traces", "self.meta_data")
+            if isinstance(tgts[0], (ast.Tuple, ast.List)):
+                stores = [t for t in tgts[0].elts if is_store(t)]
+                res = "<tuple target>"
+            else:
+                res = H.name_id(tgts[0])
+                stores = [t for t, v, s_ in H.assignments(g) if is_store(t) and any(isinstance(n, ast.Name) and n.id == res for n in ast.walk(v))]
+            okk = mk is not None and res is not None and len(stores) >= 2 and all(ast.unparse(t.slice) == mk["__mv_r"] for t in stores)
+            chk.ob(rule, f"{q}: the file parsed is trace_files[r] and its frame/metadata are stored under the same r", okk, tm.loc(c),
+                   found={"parsed": ast.unparse(arg) if arg is not None else None, "stored": [ast.unparse(t) for t in stores]}, accepted="parse_trace_file(self.trace_files[r], ...) -> self.traces[r], self.meta_data[r]")
+
+
 def run(db, chk) -> None:
     st = db.mod(ST)
     # ---------------------------------------------------------------- R1 who may write
@@ -175,26 +221,7 @@ def run(db, chk) -> None:
     # ---------------------------------------------------------------- R3 schedule independence
     f = tm.func("Trace.parse_multiple_ranks")
     where = tm.loc(f)
-    pool_vars = {H.name_id(it.optional_vars) for w in ast.walk(f) if isinstance(w, ast.With) for it in w.items if "Pool(" in ast.unparse(it.context_expr) and it.optional_vars is not None}
-    pool_vars |= {H.name_id(t) for t, v, s_ in H.assignments(f) if "Pool(" in ast.unparse(v)}
-    pool_calls = [c for c in ast.walk(f) if isinstance(c, ast.Call) and isinstance(c.func, ast.Attribute) and isinstance(c.func.value, ast.Name) and c.func.value.id in pool_vars
-                  and c.func.attr not in ("close", "join", "terminate")]
-    prims = sorted({c.func.attr for c in pool_calls})
-    chk.ob("C11.R3-ordered-collection", "worker results are collected with an order-preserving primitive only", prims == ["map"], where, found=prims, accepted=["map"],
-           why="imap_unordered / apply_async deliver in completion order: zip(ranks, results) would store one rank's frame, metadata and local table under another rank")
-    pm = [c for c in pool_calls if c.func.attr == "map"]
-    zips = [c for c in ast.walk(f) if isinstance(c, ast.Call) and H.name_id(c.func) == "zip"]
-    ok, tp, res_def = False, [], []
-    if len(pm) == 1 and len(pm[0].args) >= 2 and isinstance(pm[0].args[1], ast.Name):
-        paths_var = pm[0].args[1].id
-        tp = [v for t, v, s_ in H.assignments(f) if H.name_id(t) == paths_var]
-        res_vars = [H.name_id(t) for t, v, s_ in H.assignments(f) if v is pm[0]]
-        res_def = [ast.unparse(v) for t, v, s_ in H.assignments(f) if H.name_id(t) in res_vars]
-        ok = len(tp) == 1 and H.match("[self.trace_files[$r] for $r in ranks]", tp[0]) is not None and len(res_vars) == 1 and \
-            any([H.name_id(a) for a in z.args] == ["ranks", res_vars[0]] for z in zips)
-        tp = [ast.unparse(x) for x in tp]
-    chk.ob("C11.R3-ordered-collection", "results are paired with the rank list the inputs were built from, in the same order", ok and len(res_def) == 1, where, found={"trace_paths": tp, "results": res_def, "zip": [ast.unparse(z) for z in zips]},
-           accepted="trace_paths = [self.trace_files[rank] for rank in ranks]; results = pool.map(_parser, trace_paths, ...); zip(ranks, results)")
+    check_rank_association(db, chk, "C11.R3-ordered-collection")
     seq = [n for n in ast.walk(f) if isinstance(n, ast.For) and H.name_id(n.iter) == "ranks"]
     chk.ob("C11.R3-ordered-collection", "the sequential branch and the final re-encoding iterate the same rank list", len(seq) >= 2, where, found=len(seq), accepted=">= 2 loops over ranks")
     pt = tm.func("Trace.parse_traces")
@@ -246,6 +273,9 @@ def run(db, chk) -> None:
         chk.ob("C11.R4-id-opacity", f"{w}: {hit} over a name/cat column", bool(reason) and decoded, loc, found=src, accepted="only in the frozen table, and only while the column is still decoded there: " + (reason or "-"),
                why="ordering or arithmetic on encoded ids makes the result depend on the arbitrary id numbering (hash seed, parse order)")
     chk.ob("C11.R4-id-opacity", "scan covered every function of hta", len(sinks) >= 2, "hta", found=len(sinks), accepted=">= 2 candidate sites (both frozen)", nontrivial=False)
+    _derived_views(db, chk)
+    from .c01 import _parser
+    _parser(db, chk, enc_rule="C11.R6-local-encoding", full=False)      # the per-file table: ids handed to the frame ARE the table's ids
     gb = []
     for mod, q, fn in db.all_functions():
         for n in walk_no_nested(fn):
@@ -254,3 +284,77 @@ def run(db, chk) -> None:
                 if consts & IDC:
                     gb.append(f"{mod.name}:{q} {mod.loc(n)}")
     chk.analysed_add("groupby_on_id_columns (row ORDER of these results follows the numbering; contents do not)", gb)
+
+
+def _derived_views(db, chk) -> None:
+    """C11.R5: attributes of the table class that cache a VIEW of sym_table / sym_index are refreshed whenever the table changed
+    (the table is append-only - R1 - so 'same length' is a sound 'unchanged' test; 'cache non-empty' is not) and are read only
+    after the refresh."""
+    rule = "C11.R5-derived-views"
+    st = db.mod(ST)
+    cls = st.classes["TraceSymbolTable"]
+    meths = [n for n in cls.body if isinstance(n, (ast.FunctionDef,))]
+    src_attr = {"sym_table", "sym_index"}
+
+    def self_attr(n):
+        return n.attr if isinstance(n, ast.Attribute) and isinstance(n.value, ast.Name) and n.value.id == "self" else None
+
+    caches = {}                                   # cache attr -> source attr
+    for f in meths:
+        for t, v, s_ in H.assignments(f):
+            a = self_attr(t)
+            if a and a not in src_attr:
+                used = {self_attr(x) for x in ast.walk(v)} & src_attr
+                if used:
+                    caches.setdefault(a, set()).update(used)
+    chk.analysed_add("derived_view_attributes", sorted(caches))
+    if not caches:
+        chk.ob(rule, "derived views of the table exist (anchor)", None, st.loc(cls), found="none", why="the cached series views the rule was written for have disappeared")
+        return
+    refreshers = [f for f in meths if f.name != "__init__" and any(self_attr(t) in caches for t, v, s_ in H.assignments(f))]
+    for f in refreshers:
+        stored = sorted({self_attr(t) for t, v, s_ in H.assignments(f) if self_attr(t) in caches})
+        srcs = set().union(*[caches[a] for a in stored])
+        guards = []
+        for t, v, s_ in H.assignments(f):
+            if self_attr(t) not in caches:
+                continue
+            cur = st.parent.get(id(s_))
+            while cur is not None and cur is not f:
+                if isinstance(cur, (ast.If, ast.While)) and ast.unparse(cur.test) not in guards:
+                    guards.append(ast.unparse(cur.test))
+                    gnode = cur
+                cur = st.parent.get(id(cur))
+        ok = not guards
+        if len(guards) == 1 and isinstance(gnode, ast.If) and not gnode.orelse:
+            for a in stored:
+                for srcn in ("sym_table", "sym_index"):
+                    if H.match(f"len(self.{srcn}) != len(self.{a})", gnode.test) is not None and any(s_ in gnode.body for t, v, s_ in H.assignments(f) if self_attr(t) in caches):
+                        ok = True
+        chk.ob(rule, f"{f.name}: the views {stored} are rebuilt unless the table's length equals the view's length (append-only => unchanged)", ok, st.loc(f),
+               found=guards or "unconditional", accepted="unconditional, or `if len(self.sym_table) != len(self.<view>)`",
+               why="a view built once ('if empty') goes stale after the next add_symbols: names added by a later rank are missing from get_symbol_ids / get_symbol_names")
+        both = {a for a in caches if a in stored}
+        chk.ob(rule, f"{f.name}: every view is rebuilt together under that one guard", both == set(caches) or len(refreshers) > 1, st.loc(f), found=stored, accepted=sorted(caches))
+    rnames = {f.name for f in refreshers}
+    for f in meths:
+        if f.name == "__init__" or f.name in rnames:
+            continue
+        loads = [n for n in ast.walk(f) if self_attr(n) in caches and isinstance(n.ctx, ast.Load)]
+        if not loads:
+            continue
+        first = min(n.lineno for n in loads)
+        calls = [c for c in ast.walk(f) if isinstance(c, ast.Call) and self_attr(c.func) in rnames and st.parent.get(id(st.parent.get(id(c)))) is f]
+        ok = bool(calls) and min(c.lineno for c in calls) < first
+        chk.ob(rule, f"{f.name}: reads a derived view only after refreshing it (unconditional call at the top level of the method)", ok, st.loc(f),
+               found=[ast.unparse(c) for c in calls] or "no refresh call", accepted=f"self.{sorted(rnames)[0] if rnames else '<refresh>'}() before the first read")
+    # nobody outside the class touches the views
+    outside = []
+    for mod, q, fn in db.all_functions():
+        if mod.name == ST and q.startswith("TraceSymbolTable."):
+            continue
+        for n in walk_no_nested(fn):
+            if isinstance(n, ast.Attribute) and n.attr in caches:
+                outside.append(f"{mod.name}:{q} {mod.loc(n)}")
+    chk.ob(rule, "the views are private to the table class", not outside, st.loc(cls), found=outside, accepted="no access outside TraceSymbolTable")
+    chk.floor(rule, 5)
